@@ -63,6 +63,11 @@ class AsyncioRunner(BaseRunner):
                 return
             failure = OrphanedReturn(payload, result)
         self._tasks.discard(asyncio.current_task())
+        if isinstance(failure, StopIteration):
+            # cannot be set on a Future: report it chained to a RuntimeError (PEP 479)
+            error = RuntimeError("payload raised StopIteration")
+            error.__cause__ = failure
+            failure = error
         if not self._payload_failure.done():
             self._payload_failure.set_exception(failure)
 
